@@ -24,5 +24,5 @@ PROPS = {
     'C16': dict(verus=['u_qname', 'u_xns'], level='proof', technique='contract-based deductive verification (Verus) of the verbatim-extracted XML qualified-name splitter, duplicate-attribute test and namespace handling of the tree builder (declaration rules, innermost-first scope search, resolution of element and attribute names, what is pushed for descendants and what is dropped) against a scope-resolution specification written from Namespaces in XML'),
     'C17': dict(verus=['u_xser'], kani_quick=['b_xrt'], level='proof', technique='contract-based deductive verification (Verus) of the verbatim-extracted XmlSerializer: output equals a spec escape function with proved reversibility/confinement lemmas; namespace-scope postconditions (every prefix of the element and its attributes bound by the declarations actually written; end_elem leaves enclosing scopes alone)'),
     'C19': dict(verus=['u_enc', 'u_meta'], kani_quick=['b_henc'], level='proof', technique='contract-based deductive verification (Verus) of the verbatim-extracted extract_a_character_encoding_from_a_meta_element against a transcription of the WHATWG algorithm; bounded sweep of the real tree builder for which elements raise an indicator'),
-    'C18': dict(verus=['u_trace'], level='proof', technique='contract-based deductive verification (Verus): trace_handles against a handle set generated from the struct definition'),
+    'C18': dict(verus=['u_trace'], kani_quick=['b_trace'], level='proof', technique='contract-based deductive verification (Verus): trace_handles against a handle set generated from the struct definition'),
 }
